@@ -879,15 +879,15 @@ func splits(dom int) []fileSpec {
 	return out
 }
 
-// genExhaustive (thorough tier): every pair of files over the timestamps {0,1,2}, every split
-// into blocks, no or one deleted range on the newer file; every seek time in -1..3, both
+// genExhaustive (thorough tier): every pair of files over the timestamps {0,1,2,3}, every split
+// into blocks, no or one deleted range on the newer file; every seek time in -1..4, both
 // directions, alternating scalar/array and value type.
 func genExhaustive(emit func([]string)) {
-	sp := splits(3)
+	sp := splits(4)
 	var dels [][][2]int64
 	dels = append(dels, nil)
-	for lo := int64(0); lo < 3; lo++ {
-		for hi := lo; hi < 3; hi++ {
+	for lo := int64(0); lo < 4; lo++ {
+		for hi := lo; hi < 4; hi++ {
 			dels = append(dels, [][2]int64{{lo, hi}})
 		}
 	}
@@ -925,7 +925,7 @@ func genExhaustive(emit func([]string)) {
 				}
 				g := &genCase{}
 				g.l = layout{typ: types[n%5], mode: n % 2, decoy: n % 4, files: []fileSpec{f0, {blocks: f1.blocks, deletes: d}}}
-				for t := int64(-1); t <= 3; t++ {
+				for t := int64(-1); t <= 4; t++ {
 					for _, dir := range []string{"a", "d"} {
 						v := "s"
 						if (n+int(t))%2 == 0 {
@@ -948,7 +948,7 @@ func genExhaustive(emit func([]string)) {
 func gen(r *h.Rand, tier string, emit func([]string)) {
 	nLayouts, nk := 1200, 12
 	if tier == "thorough" {
-		nLayouts, nk = 20000, 16
+		nLayouts, nk = 12000, 16
 	}
 	const batch = 256
 	for c0 := 0; c0 < nLayouts; c0 += batch {
